@@ -1,5 +1,6 @@
 import Astits.Driver.Common
 import Astits.Gen.Desc
+import Astits.Spec.Desc
 namespace Astits.DriverC14
 
 def showDescs (ds : List Descriptor) : String := jarr (ds.map Descriptor.toJson)
@@ -20,6 +21,10 @@ def expectParsed (d : Descriptor) : Descriptor :=
   let l := calcDescriptorLength d
   if l = 0 then { tag := d.tag, length := 0 } else { d with length := l }
 
+/-- the AC-3 descriptor's reserved_flags are written as 1111 by the library (pinned by its test suite)
+while EN 300 468 D.3 prescribes 0000: known finding -/
+def hasAC3 (ds : List Descriptor) : Bool := ds.any fun d => d.tag == 0x6a && d.ac3.isSome
+
 def writeCase (ds : List Descriptor) (spec : Option Bytes) (tag : String) : Case :=
   if ds.any writeDescriptorPanics then
     { op := "writeDesc", args := [("descs", showDescs ds)], model := "panic", tag := tag ++ "-nil" }
@@ -28,7 +33,8 @@ def writeCase (ds : List Descriptor) (spec : Option Bytes) (tag : String) : Case
     let cl := ds.map calcDescriptorLength
     { op := "writeDesc", args := [("descs", showDescs ds)],
       model := showWrite bs (writeDescriptorsWithLengthCount ds) cl,
-      spec := spec.map fun sb => showWrite sb sb.length (ds.map fun d => (sb.length, d).2 |> calcDescriptorLength),
+      spec := spec.map fun sb => showWrite sb sb.length (ds.map fun d => (Spec.descBodyEncode d).length),
+      cls := if hasAC3 ds then "ac3-reserved-flags" else "",
       tag := tag }
 
 def parseCase (bs : Bytes) (spec : Option String) (tag : String) : Case :=
@@ -44,21 +50,20 @@ def run (t : Tier) : Emit Unit := do
   for k in [0:25] do
     for _ in [0:40 * t.scale] do
       let d ← liftGen (genDescriptorOfKind k)
-      emit "C14" (writeCase [d] none s!"write-kind")
+      emit "C14" (writeCase [d] (some (Spec.descLoopEncode [d])) s!"write-kind")
       let bs := writeDescriptorsWithLength [d]
       emit "C14" (parseCase bs (some s!"ok:off={bs.length}:{showDescs [expectParsed d]}") "parse-written-kind")
   -- (2) loops of mixed descriptors; the redundant Length field correct, 0 or wrong
   for _ in [0:200 * t.scale] do
     let mx ← liftGen (pick [40, 150, 400, 1000, 4000])
     let ds ← liftGen (genDescriptors mx)
-    emit "C14" (writeCase ds none "write-loop")
+    emit "C14" (writeCase ds (some (Spec.descLoopEncode ds)) "write-loop")
     let bs := writeDescriptorsWithLength ds
     emit "C14" (parseCase bs (some s!"ok:off={bs.length}:{showDescs (ds.map expectParsed)}") "parse-written-loop")
     let dl ← liftGen (genDescriptorsLoose mx)
     -- the Length field must not matter: same bytes as with the field set correctly
     let fixed := dl.map fun d => { d with length := calcDescriptorLength d }
-    emit "C14" { writeCase dl none "write-loose-length" with
-      spec := some (showWrite (writeDescriptorsWithLength fixed) (writeDescriptorsWithLengthCount fixed) (fixed.map calcDescriptorLength)) }
+    emit "C14" (writeCase dl (some (Spec.descLoopEncode fixed)) "write-loose-length")
   -- (3) framing: a descriptor whose declared length differs from what its tag implies must not shift
   --     the parsing of the descriptors that follow (either an error, or the tail parses as it does alone)
   for _ in [0:300 * t.scale] do
